@@ -9,6 +9,7 @@ P = {
                  "C04_rejected_without_optin_fails_even_if_later_accepts", "C04_rejected_without_optin_exact",
                  "C04_no_credentials_iff_none_presented", "C04_kindless_never_no_credentials", "C04_fallback_only_if_opted_in",
                  "C04_typed_later_only_if", "C04_typed_first_success", "C04_typed_rejected_blocks", "C04_named_rejections_block",
+                 "C04_flag_history_independent", "C04_step_flag_alone",
                  "C04_checked_predicate_implies_spec", "C04_model_passes_checked_predicate"],
     "streams": [{
         "name": "chains", "pkg": "./internal/rules", "test": "TestVerifC04",
@@ -18,8 +19,11 @@ P = {
         "eval_module": "Run.Eval_C04", "check_term": "check",
         "n_quick": 4000, "n_thorough": 60000, "findings": {},
     }],
-    "rule": "case = one rule + 1-3 requests sent through it with one real in-memory cache. Rule: chain (1-8) of real authenticators, one "
-            "prototype per step created by the real mechanism factory (anonymous, unauthorized, basic_auth incl. a password with ':', jwt, "
+    "rule": "case = one set of prototypes + 1-4 rules created on it by ONE rule factory in a random order (a step of a further rule "
+            "mostly names a prototype an earlier step names and differs in the rule-level settings, often only in "
+            "allow_fallback_on_error true/false/absent; a rule may name a prototype twice) + 1-4 requests, each handled by one of the "
+            "rules, all with one real in-memory cache. Rule: chain (1-8) of real authenticators, prototypes created by the real "
+            "mechanism factory (anonymous, unauthorized, basic_auth incl. a password with ':', jwt, "
             "oauth2_introspection, generic; endpoint answers / closes the connection / 5xx / not-JSON / no answer within the time limit / "
             "'switchable' = behaviour given per request; jwks_endpoint|introspection_endpoint or metadata_endpoint (fixed URL in each of "
             "those states, document without endpoint, URL templated with the token issuer); default or custom token sources; audience+scope "
@@ -70,7 +74,9 @@ P = {
                   "order. Type level, over a shape space of requests x six authenticator types x endpoint behaviour (incl. time limit, "
                   "metadata discovery) x assertions x token sources x cache lookup x (prototype flag, rule-level flag): 'no credentials' is "
                   "answered exactly when no credentials of the type's kind are presented; IsFallbackOnErrorAllowed() only when the step "
-                  "opts in; the three sentences of the statement for real chains, and explicitly for wrong password / bad signature / "
+                  "opts in, and - over histories of rule creations from one set of prototypes - the objects (type, flag) of a rule's steps "
+                  "are those it gets when created alone, whatever was created before or after; the three sentences of the statement for "
+                  "real chains, and explicitly for wrong password / bad signature / "
                   "inactive token / failed assertion. The executable predicate applied to the implementation's observation is proved to "
                   "imply the specification, and the model is proved to pass it. Tied to the code by ~4000 (quick) / 60000 (thorough) rules "
                   "x 1-3 requests through real authenticators, real cache and local endpoints, 60% through the complete decision / Envoy "
